@@ -46,6 +46,11 @@ func (m *Machine) fresh(name, kind string, w int, signed bool) *Term {
 	}
 	t := m.tf.Var("|"+full+"|", w)
 	m.nondets = append(m.nondets, nondetVar{Name: full, Kind: kind, t: t, w: w, signed: signed})
+	if m.cfg.Forced != nil {
+		// interpreter replay of a counterexample: the unknown is the model's value
+		m.solver.Assert(m.tf.Eq(t, m.forcedTerm(full, w)))
+		return m.forcedTerm(full, w)
+	}
 	return t
 }
 
@@ -392,6 +397,7 @@ func (m *Machine) violation(label, kind, msg string) {
 		}
 	}
 	v.Trace = append([]Decision(nil), m.trace...)
+	v.EnvDep = m.envPicks > 0
 	var tags []string
 	tags = append(tags, m.res.Tags...)
 	sort.Strings(tags)
